@@ -104,7 +104,7 @@ def canonical_token_problems(ctoks):
     return probs
 
 
-def analyse(text, ctx=0, skip=False, want=("roundtrip", "total", "agree", "canon")):
+def analyse(text, ctx=0, skip=False, want=("roundtrip", "total", "agree", "canon"), with_builder=False):
     """Run both tokenizers + builder on one input; return dict of failures (empty = fine) and stats."""
     st = setup()
     res = {"fail": {}, "stats": {}}
@@ -123,6 +123,11 @@ def analyse(text, ctx=0, skip=False, want=("roundtrip", "total", "agree", "canon
         tp = canonical_token_problems(r[1])
         if tp:
             res["fail"].setdefault("canon", []).append("%s: %s" % (which, tp[0]))
+        if with_builder and (which == "py" or outs.get("py", (None, None))[1] != r[1]):
+            import buildcorr
+            enc = buildcorr.encode_tokens(r[2])
+            if enc is not None:
+                res.setdefault("builder", []).append((which, enc, buildcorr.real_build(r[2])))
         b = build(r[2])
         if b[0] == "exc":
             res["fail"].setdefault("total", []).append("builder on %s tokens raised %s: %s" % (which, b[1], b[2]))
